@@ -51,6 +51,18 @@ CHECKS = {
             "kernel-checked witness). Tie: Surface::local_value on the implementation's own triangle list / kd array vs the "
             "model bit-for-bit, merged node set vs the triangulation's vertex set. Known findings D8, D19 are reported as such.",
             "proof over Reals of barycentric interpolation + merge lemmas + bit-exact correspondence with Delaunay/kd data from the implementation", "4 C11"),
+    "C14": ("Theorems (Properties_C14.v, axiom-free): a query neither reads nor changes mutable state (no random models), so after "
+            "any interleaving of any number of per-thread streams it has the single-threaded answer; ThreadPool::parallel_for "
+            "launches a partition of [start,end) with at most P non-empty consecutive slices for every range and thread count "
+            "(every node exactly once). Not a theorem: race freedom in the C++ memory model (multi-threaded bit-identity runs and "
+            "gwb-grid -j byte comparison are the search). Tie: ThreadPool compiled from gwb-grid/main.cc vs the model on all "
+            "(n,P) of the stated box.",
+            "proof by induction (schedule) and lia (slice partition) + exhaustive slice correspondence + concurrent-run oracle", "4 C14"),
+    "C16": ("Theorems (Properties_C16.v, axiom-free) about the marshalling model: create_world hands file, flag, FULL directory and "
+            "seed to the constructor for null and non-null pointers; properties_2d/3d, temperature, composition forward to the "
+            "native entry points. The model is thin; the weight is on the tie: C API, wrapper_cpp and native World queried in one "
+            "process, bit-identical answers, output directory observed through the files written, seed through random models.",
+            "proof about the marshalling model + in-process wrapper-vs-native oracle", "4 C16"),
 }
 
 NOT_YET = {
